@@ -1,102 +1,101 @@
 (* C41 — the MJCF schema-language parser is total and its checks sound.
    Statements about Model/SchemaLang.v (model of doc/generate/mjcf_schema.py); each is closed by a lemma of
-   Proof/SchemaLangProof.v.  [rl] is the number of Python frames available below _validate (recursion limit
-   minus the depth of the caller); [cnl text] the number of newline characters of the text, so that the
-   lexer's line counter ends at cnl text + 1; [groups_of text] the number of declared groups. *)
+   Proof/SchemaLang{Proof,Sound,Iter}.v.  [parse_string] models the code of HEAD (iterative `use` traversals);
+   [parse_string_rec rl] models the explicitly recursive variant that preceded commit ff3dbc583, with the
+   number rl of Python frames available below _validate as an argument.  [cnl text] is the number of newline
+   characters of the text: the lexer's line counter ends at cnl text + 1. *)
 From Coq Require Import String.
 From Coq Require Import NArith ZArith List Bool.
-From MJV Require Import Model.SchemaLang Model.SchemaLangSpec Proof.SchemaLangProof Proof.SchemaLangSound.
+From MJV Require Import Model.SchemaLang Model.SchemaLangSpec.
+From MJV Require Import Proof.SchemaLangProof Proof.SchemaLangSound Proof.SchemaLangIter.
 Import ListNotations.
 Open Scope N_scope.
 
-(* For EVERY text (any list of code points) and every frame budget: parse_string returns a schema, or raises
-   SchemaError with a line in 1 .. (number of newlines + 1), or raises RecursionError - and the latter only
-   when the budget is below (number of declared groups + 2).  IndexError (token list read past its end),
-   KeyError (dict lookups of _validate/_group_attrs), the TypeError branches and loop-fuel exhaustion of the
-   model are excluded for all inputs. *)
+(* Totality, for EVERY text (any list of code points): parse_string returns a schema or raises SchemaError
+   with a line in 1 .. (number of newlines + 1).  Nothing else: IndexError (token list read past its end),
+   KeyError (dict lookups of _validate, _group_attrs, _check_child_cycles), the TypeError branches,
+   non-termination of the traversal loops (fuel of the model) are excluded for all inputs. *)
 Theorem C41_total :
+  forall text : str,
+    (exists s, parse_string text = Ok s) \/
+    (exists l, parse_string text = SchemaErr l /\ 1 <= l <= cnl text + 1).
+Proof. exact parse_string_total'. Qed.
+Print Assumptions C41_total.
+
+(* Soundness: every accepted schema satisfies all documented rules, and every line number it records lies
+   within the text.  WellFormed = rules enforced while parsing (unique declarations per table, non-empty enums
+   with unique keywords, non-empty groups, well-formed arities, known and unique facets, targets exactly on
+   enum/flags/id/ref attributes, child/set only in elements with a legal cardinality, constraints with at
+   least two non-empty bundles) and the rules of _validate (no dangling use/child/alias/enum/namespace
+   reference, acyclic use graph, acyclic child graph through distinct non-alias elements, group and element
+   constraints name their attributes, variant groups have no use/required, children unique, no duplicate
+   attribute after group expansion, `requires a b`, arity restrictions of file/bool/chars, facet payload
+   rules, min <= max, required excludes a default, defaults agree with type and arity). *)
+Theorem C41_sound :
+  forall (text : str) (s : schema), parse_string text = Ok s -> WellFormed s /\ schema_lines (cnl text + 1) s.
+Proof. exact parse_string_sound'. Qed.
+Print Assumptions C41_sound.
+
+(* the same for _validate alone, on ANY schema value with unique group and element names *)
+Theorem C41_validate_sound :
+  forall s : schema, NoDup (map g_name (s_groups s)) -> NoDup (map e_name (s_elements s)) ->
+    validate s = VOk -> schema_rules s.
+Proof. exact validate_sound'. Qed.
+Print Assumptions C41_validate_sound.
+
+(* "a schema breaking one rule is rejected": if the text parses to a schema value that violates any rule,
+   parse_string raises SchemaError with a line inside the text.  The converse direction (every well-formed
+   schema is accepted) is NOT proved; it is only observed by the correspondence run on generated schemas. *)
+Theorem C41_complete_rule_breaking_rejected :
+  forall (text : str) (s : schema), parse_text text = Ok s -> ~ WellFormed s ->
+    exists l, parse_string text = SchemaErr l /\ 1 <= l <= cnl text + 1.
+Proof. exact rule_breaking_rejected'. Qed.
+Print Assumptions C41_complete_rule_breaking_rejected.
+
+(* ---------------- the explicitly recursive variant (code before commit ff3dbc583) ---------------- *)
+
+(* it is total only up to the interpreter's recursion limit: RecursionError escapes, and only when the frame
+   budget is below (number of declared groups + 2) *)
+Theorem C41_recursive_variant_total :
   forall (rl : nat) (text : str),
-    match parse_string rl text with
+    match parse_string_rec rl text with
     | Ok _ => True
     | SchemaErr l => 1 <= l <= cnl text + 1
     | PyExn e => e = RecursionError /\ (rl < groups_of text + 2)%nat
     end.
 Proof. exact parse_string_total. Qed.
-Print Assumptions C41_total.
+Print Assumptions C41_recursive_variant_total.
 
-(* hence: with `use` chains (bounded by the number of groups) shorter than the limit, no exception other
-   than SchemaError escapes *)
-Corollary C41_total_within_limit :
-  forall (rl : nat) (text : str), (groups_of text + 2 <= rl)%nat ->
-    (exists s, parse_string rl text = Ok s) \/
-    (exists l, parse_string rl text = SchemaErr l /\ 1 <= l <= cnl text + 1).
-Proof. exact parse_string_within_limit. Qed.
-Print Assumptions C41_total_within_limit.
-
-(* ... but the limit is real: "no other exception escapes" is FALSE of the faithful model.  The text
-   group g0 { use g1 } ... group g999 { use g1000 } group g1000 { a : int }  (1001 groups, 23.8 kB) makes
-   parse_string raise RecursionError for EVERY budget up to CPython's default limit of 1000 frames (994 are
-   available below _validate under the driver); the same family is accepted as soon as the budget reaches
-   the chain length (shown at length 101: the 1001-group instance needs ~10^8 steps in _check_group_cycle,
-   it is replayed on the implementation by the check). *)
-Theorem C41_recursion_refuted :
-  (forall rl, (rl <= 1000)%nat -> parse_string rl (chain_text 1001) = PyExn RecursionError) /\
+(* ... and "no other exception escapes" was FALSE of it: the valid text
+   group g0 { use g1 } ... group g999 { use g1000 } group g1000 { a : int }  (1001 groups, 23.8 kB) makes the
+   recursive variant raise RecursionError for EVERY budget up to CPython's default limit of 1000 frames;
+   the same family is accepted once the budget reaches the chain length (shown at length 101) *)
+Theorem C41_recursion_refuted_recursive_variant :
+  (forall rl, (rl <= 1000)%nat -> parse_string_rec rl (chain_text 1001) = PyExn RecursionError) /\
   groups_of (chain_text 1001) = 1001%nat /\
-  parse_string 100 (chain_text 101) = PyExn RecursionError /\
-  is_ok (parse_string 101 (chain_text 101)) = true.
+  parse_string_rec 100 (chain_text 101) = PyExn RecursionError /\
+  is_ok (parse_string_rec 101 (chain_text 101)) = true.
 Proof. exact recursion_refuted_full. Qed.
-Print Assumptions C41_recursion_refuted.
+Print Assumptions C41_recursion_refuted_recursive_variant.
 
-(* the RecursionError is monotone: if the cycle check runs out of frames with budget rl, parse_string raises
-   RecursionError for every smaller budget as well *)
-Theorem C41_recursion_monotone :
+(* running out of frames in the cycle check is monotone in the budget *)
+Theorem C41_recursion_monotone_recursive_variant :
   forall (text : str) (s : schema) (rl : nat) (e : pyexn),
     parse_text text = Ok s -> cycle_step rl (s_groups s) = VExn e ->
-    forall rl', (rl' <= rl)%nat -> parse_string rl' text = PyExn RecursionError.
+    forall rl', (rl' <= rl)%nat -> parse_string_rec rl' text = PyExn RecursionError.
 Proof. exact recursion_monotone. Qed.
-Print Assumptions C41_recursion_monotone.
+Print Assumptions C41_recursion_monotone_recursive_variant.
 
-(* rules enforced while parsing: every accepted schema has unique declarations per table, non-empty enums
-   with unique keywords, non-empty groups, well-formed arities, known and unique facets, targets exactly on
-   enum/flags/id/ref attributes, child/set only in elements with a legal cardinality, constraints with at
-   least two non-empty bundles; and all recorded line numbers lie within the text *)
-Theorem C41_sound_parse_rules :
-  forall (rl : nat) (text : str) (s : schema),
-    parse_string rl text = Ok s -> schema_syn s /\ schema_lines (cnl text + 1) s.
-Proof. exact parse_string_syn. Qed.
-Print Assumptions C41_sound_parse_rules.
+(* the repaired code accepts the witness *)
+Theorem C41_deep_chain_accepted : is_ok (parse_string (chain_text 1001)) = true.
+Proof. exact deep_chain_accepted. Qed.
+Print Assumptions C41_deep_chain_accepted.
 
-(* soundness: every accepted schema satisfies all documented rules (WellFormed = the rules above and the
-   rules of _validate: no dangling use/child/alias/enum/namespace reference, acyclic use graph, group and
-   element constraints name their attributes, variant groups have no use/required, children unique, no
-   duplicate attribute after group expansion, `requires a b`, arity restrictions of file/bool/chars, facet
-   payload rules, min <= max, required excludes a default, defaults agree with type and arity) *)
-Theorem C41_sound :
-  forall (rl : nat) (text : str) (s : schema), parse_string rl text = Ok s -> WellFormed s.
-Proof. exact parse_string_sound. Qed.
-Print Assumptions C41_sound.
-
-(* the same for _validate alone, on ANY schema value with unique group names (not only parser output) *)
-Theorem C41_validate_sound :
-  forall (rl : nat) (s : schema), NoDup (map g_name (s_groups s)) -> validate rl s = VOk -> schema_rules s.
-Proof. exact validate_sound. Qed.
-Print Assumptions C41_validate_sound.
-
-(* "a schema breaking one rule is rejected": if the text parses to a schema value that violates any rule,
-   parse_string raises SchemaError (with a line inside the text) - under the recursion-limit proviso.
-   The converse direction (every well-formed schema is accepted) is NOT proved; it is only observed by the
-   correspondence run on generated valid schemas. *)
-Theorem C41_complete_rule_breaking_rejected :
-  forall (rl : nat) (text : str) (s : schema),
-    (groups_of text + 2 <= rl)%nat -> parse_text text = Ok s -> ~ WellFormed s ->
-    exists l, parse_string rl text = SchemaErr l /\ 1 <= l <= cnl text + 1.
-Proof. exact rule_breaking_rejected. Qed.
-Print Assumptions C41_complete_rule_breaking_rejected.
-
-(* non-vacuity: a text with a nested use, a variant group, an enum default and a constraint is accepted,
-   and one duplicate attribute via use turns it into a SchemaError on the line of the later declaration *)
+(* non-vacuity: a text with a nested use, a variant group, an enum default, a constraint and a recursive
+   child is accepted; one duplicate attribute via use, and one child cycle, turn it into a SchemaError on the
+   line of the later declaration / of the child member that closes the cycle *)
 Example C41_example_accept :
-  is_ok (parse_string 50 (nstr "enum e { a = 0 b = 1 }
+  is_ok (parse_string (nstr "enum e { a = 0 b = 1 }
 group o variant { quat : double[4] = {1, 0, 0, 0}
  euler : double[3] }
 group p { pos : double[3]
@@ -110,7 +109,14 @@ element g : mjsGeom (xml=geom) { use p
 Proof. vm_compute. reflexivity. Qed.
 
 Example C41_example_reject :
-  parse_string 50 (nstr "group p { pos : double[3] }
+  parse_string (nstr "group p { pos : double[3] }
 element g { use p
  pos : int }"%string) = SchemaErr 3.
+Proof. vm_compute. reflexivity. Qed.
+
+Example C41_example_child_cycle :
+  parse_string (nstr "element a {
+ child b ? }
+element b {
+ child a * }"%string) = SchemaErr 4.
 Proof. vm_compute. reflexivity. Qed.
